@@ -324,6 +324,30 @@ class StereoCondensedReactionGraph(StereoMolGraph, CondensedReactionGraph):
 
         return relabeled_scrg
 
+    def subgraph(self, atoms: Iterable[AtomId]) -> Self:
+        """Returns a subgraph of the graph with the given atoms together
+        with the stereo information and the stereo changes whose atoms are
+        all part of the subgraph
+
+        :param atoms: Atoms to be used for the subgraph
+        :return: Subgraph
+        """
+        atoms = set(atoms)
+        new_graph = super().subgraph(atoms)
+        for change_table, new_change_table in (
+            (self._atom_stereo_change, new_graph._atom_stereo_change),
+            (self._bond_stereo_change, new_graph._bond_stereo_change),
+        ):
+            for key, change_dict in change_table.items():
+                for change, stereo in change_dict.items():
+                    if stereo is not None and all(
+                        atom in atoms
+                        for atom in stereo.atoms
+                        if atom is not None
+                    ):
+                        new_change_table[key][change] = stereo
+        return new_graph
+
     def reactant(self, keep_attributes: bool = True) -> StereoMolGraph:
         """
         Returns the reactant of the reaction
